@@ -238,7 +238,7 @@ static void fresh(void)
 }
 
 static int last_new_id;
-static int wmode;
+static int wmode, w_notok;
 static json_object *w_new_leaf(void);
 static void w_declare(const char *op, int a, int ret);
 static void op_new(char kind)
@@ -251,8 +251,10 @@ static void op_new(char kind)
 	held[id] = 1;
 	/* the destruction callback the property speaks of */
 	pending_id = 0;
-	if (wmode && json_object_get_type(o) == json_type_double)
-		id = 0; /* (a double's user-data slot may hold its retained text: no destructor token on doubles in world mode) */
+	if (wmode && (w_notok || json_object_get_type(o) == json_type_double))
+		id = 0; /* (a double's user-data slot may hold its retained text: no destructor token on doubles in world mode;
+		         * none at all when model histories are replayed - the bounded model's nodes carry none, and a node with
+		         * foreign user data cannot be copied by a patch) */
 	else if (id & 1)
 		json_object_set_userdata(o, cookie_for(id, id), ud_delete);
 	else
@@ -1336,6 +1338,7 @@ static void w_parse(int a)
 	ev_end();
 }
 /* json_patch_apply in place with one copying operation (add / replace / copy): the document gets a subtree of fresh nodes */
+static void w_patch_do(int a, int pop, const int *pt, const int *pv, int np, const int *ft, const int *fv, int nf, const char *vt);
 static void w_patch(int a)
 {
 	static const char *vals[] = {"7", "\"s\"", "[1,\"x\"]", "{\"k1\":true,\"k2\":[null]}", "null", "1.5", "{}", "[]", "-0.0", "[[2.50]]"};
@@ -1360,11 +1363,14 @@ static void w_patch(int a)
 			nf = 1;
 		}
 	}
+	w_patch_do(a, pop, pt, pv, np, ft, fv, nf, vals[vh_below(sizeof vals / sizeof *vals)]);
+}
+static void w_patch_do(int a, int pop, const int *pt, const int *pv, int np, const int *ft, const int *fv, int nf, const char *vt)
+{
 	char path[160], from[160];
 	path_string(path, pt, pv, np);
 	path_string(from, ft, fv, nf);
 	json_object *val = NULL;
-	const char *vt = vals[vh_below(sizeof vals / sizeof *vals)];
 	if (pop != 2)
 		val = json_tokener_parse(vt);
 	json_object *patch = json_object_new_array(), *op = json_object_new_object();
@@ -1464,6 +1470,26 @@ static int wreplay_op(char op, const int *v, int n)
 		w_forced = -1;
 		return 0;
 	case 'Y': w_asort(v[0]); return 0;
+	case 'H':
+	{
+		/* H a pop vi np (type val)* nf (type val)*   - the copying patch operations of the model, values a", [0], null */
+		int pt[4], pv[4], ft[4], fv[4], np = v[3], nf;
+		for (int j = 0; j < np && j < 4; j++)
+		{
+			pt[j] = v[4 + 2 * j];
+			pv[j] = v[5 + 2 * j];
+		}
+		nf = v[4 + 2 * np];
+		for (int j = 0; j < nf && j < 4; j++)
+		{
+			ft[j] = v[5 + 2 * np + 2 * j];
+			fv[j] = v[6 + 2 * np + 2 * j];
+		}
+		if (v[1] != 2)
+			nf = 0;
+		w_patch_do(v[0], v[1], pt, pv, np, ft, fv, nf, v[2] == 2 ? "\"a\\\"\"" : v[2] == 5 ? "[0]" : "null");
+		return 0;
+	}
 	case 'Z':
 		w_parse_flags = v[1];
 		w_parse(v[0]);
@@ -1808,6 +1834,7 @@ int c05_main(int argc, char **argv)
 	else if (argc >= 3 && !strcmp(argv[0], "wreplay"))
 	{
 		wmode = 1;
+		w_notok = 1;
 		r = replay(argv[1], atol(argv[2]));
 	}
 	else if (argc >= 4 && !strcmp(argv[0], "world"))
